@@ -21,7 +21,12 @@ type pwCfg struct {
 	propagation bool // propagation entries on protected refs
 	nOps        int
 	verifyMid   bool
+	persons     bool // developers are persons owning two keys (d and secondKeyOf(d)) instead of bare keys
 }
+
+// secondKeyOf is the second key of developer d when developers are persons; no
+// actor is configured with it, it only signs approvals.
+func secondKeyOf(d int) int { return 20 + d }
 
 func drawPWCfg(r *core.Rand, tier string) pwCfg {
 	c := pwCfg{nDev: r.Range(2, 4), maxThr: r.Range(1, 3), delegDepth: r.Weighted([]int{5, 3, 2}), nOps: r.Range(3, 14)}
@@ -33,6 +38,7 @@ func drawPWCfg(r *core.Rand, tier string) pwCfg {
 	c.approvals = r.Chance(0.6)
 	c.policyEdits = r.Chance(0.5)
 	c.verifyMid = r.Chance(0.5)
+	c.persons = r.Chance(0.3)
 	return c
 }
 
@@ -52,6 +58,16 @@ type pwGen struct {
 	globalGen   func() []world.GlobalRuleSpec // C11: draws the policy's global rules
 	forcePushes bool
 }
+
+// pspec / pid: developer d as a principal of the generated policies.
+func (g *pwGen) pspec(d int) world.PrincipalSpec {
+	if g.cfg.persons {
+		return world.PrincipalSpec{ID: fmt.Sprintf("person-%d", d), Keys: []int{d, secondKeyOf(d)}, Person: true}
+	}
+	return world.KeyPrincipal(d)
+}
+
+func (g *pwGen) pid(d int) string { return g.pspec(d).ID }
 
 func devList(n int) []int {
 	out := []int{}
@@ -82,10 +98,10 @@ func (g *pwGen) initialPolicy() *world.PolicySpec {
 	ps := []world.PrincipalSpec{}
 	ids := []string{}
 	for _, d := range devs { // every dev is defined as a principal; rules pick members
-		ps = append(ps, world.KeyPrincipal(d))
+		ps = append(ps, g.pspec(d))
 	}
 	for _, m := range members {
-		ids = append(ids, world.GetKey(m).ID)
+		ids = append(ids, g.pid(m))
 	}
 	pol := &world.PolicySpec{
 		RootVersion: 1, RootKeys: []int{0}, RootThreshold: 1, TargetsKeys: []int{0}, TargetsThreshold: 1, RootSigners: []int{0},
@@ -98,7 +114,7 @@ func (g *pwGen) initialPolicy() *world.PolicySpec {
 		m2 := subset(r, devs, r.Range(1, len(devs)))
 		ids2 := []string{}
 		for _, m := range m2 {
-			ids2 = append(ids2, world.GetKey(m).ID)
+			ids2 = append(ids2, g.pid(m))
 		}
 		t.Rules = append(t.Rules, world.RuleSpec{Name: "protect-release", Patterns: []string{"git:refs/heads/rel*"}, Principals: ids2, Threshold: 1})
 	}
@@ -156,7 +172,7 @@ func (g *pwGen) editPolicy() *world.PolicySpec {
 		}
 	case 1: // add a principal
 		d := devs[r.Intn(len(devs))]
-		id := world.GetKey(d).ID
+		id := g.pid(d)
 		has := false
 		for _, x := range rule.Principals {
 			if x == id {
@@ -179,7 +195,7 @@ func (g *pwGen) editPolicy() *world.PolicySpec {
 		signers := []int{}
 		for _, id := range rule.Principals {
 			for _, d := range devs {
-				if world.GetKey(d).ID == id && len(signers) < rule.Threshold {
+				if g.pid(d) == id && len(signers) < rule.Threshold {
 					signers = append(signers, d)
 				}
 			}
@@ -193,7 +209,7 @@ func (g *pwGen) membersOf(ref string) []int {
 	out := []int{}
 	for _, v := range model.Walk(g.pol, "git:"+ref) {
 		for _, p := range v.Principals {
-			out = append(out, p.Keys...)
+			out = append(out, p.Keys[0])
 		}
 		break
 	}
@@ -252,7 +268,11 @@ func (g *pwGen) authorisedPush(ref string, i int) {
 	}
 	c := g.b.add(world.Op{Kind: "commit", Actor: g.actorForKey(pusher), Ref: ref, Files: fileFor(r, i), CommitKey: pusher})
 	for _, s := range signers[1:] {
-		g.b.add(world.Op{Kind: "approve", Actor: g.actorForKey(s), Approve: &world.ApproveSpec{Ref: ref, FromOp: g.lastOp[ref], ToOp: c, Signers: []int{s}}})
+		k := s
+		if g.cfg.persons && s >= 1 && s <= g.cfg.nDev && r.Chance(0.4) {
+			k = secondKeyOf(s) // the person approves with their other key
+		}
+		g.b.add(world.Op{Kind: "approve", Actor: g.actorForKey(s), Approve: &world.ApproveSpec{Ref: ref, FromOp: g.lastOp[ref], ToOp: c, Signers: []int{k}}})
 	}
 	id := g.b.add(world.Op{Kind: "record", Actor: g.actorForKey(pusher), Ref: ref, Base: fmt.Sprintf("op:%d", c), EntryKey: -2})
 	g.pushes = append(g.pushes, id)
@@ -262,6 +282,31 @@ func (g *pwGen) authorisedPush(ref string, i int) {
 func (g *pwGen) unauthorisedPush(ref string, i int) int {
 	r := g.r
 	var op world.Op
+	if g.cfg.persons && g.cfg.approvals && r.Chance(0.4) {
+		// one person, two keys: the same person signs the entry and the authorization with
+		// both keys (or the authorization with both keys while an outsider records). That is
+		// one principal, whatever the number of keys.
+		for _, v := range model.Walk(g.pol, "git:"+ref) {
+			if v.Threshold != 2 || len(v.Principals) == 0 {
+				continue
+			}
+			x := v.Principals[r.Intn(len(v.Principals))]
+			if !x.Person || x.Keys[0] < 1 || x.Keys[0] > g.cfg.nDev {
+				continue
+			}
+			kx := x.Keys[0]
+			c := g.b.add(world.Op{Kind: "commit", Actor: kx, Ref: ref, Files: fileFor(r, i), CommitKey: kx})
+			g.b.add(world.Op{Kind: "approve", Actor: kx, Approve: &world.ApproveSpec{Ref: ref, FromOp: g.lastOp[ref], ToOp: c, Signers: []int{kx, secondKeyOf(kx)}}})
+			rec := world.Op{Kind: "record", Actor: kx, Ref: ref, Base: fmt.Sprintf("op:%d", c), EntryKey: -2}
+			if r.Chance(0.5) {
+				rec.Actor, rec.EntryKey = g.cfg.nDev+3-1, unknownKey
+			}
+			id := g.b.add(rec)
+			g.pushes = append(g.pushes, id)
+			g.lastOp[ref] = id
+			return id
+		}
+	}
 	switch r.Intn(4) {
 	case 0: // never-authorised actor
 		op = world.Op{Kind: "push", Actor: g.cfg.nDev + 3 - 1, Ref: ref, Files: fileFor(r, i), CommitKey: -1, EntryKey: unknownKey}
@@ -304,7 +349,7 @@ func (g *pwGen) generate() {
 	g.refs = []string{mainRef, mainRef, relRef, openRef}
 	g.pol = g.initialPolicy()
 	g.b.add(world.Op{Kind: "stage", Actor: 0, Policy: g.pol})
-	g.b.add(world.Op{Kind: "apply", Actor: 0})
+	policyOps := []int{g.b.add(world.Op{Kind: "apply", Actor: 0})}
 	for i := 0; i < g.cfg.nOps; i++ {
 		ref := g.refs[r.Intn(len(g.refs))]
 		w := []int{10, 0, 0, 0, 0, 2, 0}
@@ -334,11 +379,15 @@ func (g *pwGen) generate() {
 			for j := 0; j < k; j++ {
 				ts = append(ts, g.pushes[r.Intn(len(g.pushes))])
 			}
+			if r.Chance(0.12) {
+				// annotations may name any entry, a policy entry too; that never changes which policy is in force
+				ts = append(ts, policyOps[r.Intn(len(policyOps))])
+			}
 			g.b.add(world.Op{Kind: "annotate", Actor: r.Range(0, g.cfg.nDev), Targets: ts, Skip: r.Chance(0.8), Msg: "revoke", EntryKey: -2})
 		case 3:
 			g.pol = g.editPolicy()
 			g.b.add(world.Op{Kind: "stage", Actor: 0, Policy: g.pol})
-			g.b.add(world.Op{Kind: "apply", Actor: 0})
+			policyOps = append(policyOps, g.b.add(world.Op{Kind: "apply", Actor: 0}))
 		case 4:
 			if g.lastOp[ref] != 0 {
 				a := r.Range(0, g.cfg.nDev+1)
